@@ -603,14 +603,13 @@ Definition get_data (d : rdesc) (st : store) : list byte + err :=
 (* Descriptor.GetReader: an io.SectionReader over [Offset, Offset+Size); reading
    it to the end yields what is actually there (no error when the file is
    shorter); a negative offset makes the underlying ReadAt fail; a negative
-   size reads to the end of the file *)
+   size is refused on first use (before the fix of F14 io.NewSectionReader's
+   limit test wrapped: the section ran to the end of the file, and with a
+   negative offset as well its Read panicked) *)
 Definition section_bytes (d : rdesc) (st : store) : list byte + err :=
-  if d_size d =? 0 then inl []
+  if d_size d <? 0 then inr EBadSize
+  else if d_size d =? 0 then inl []
   else if d_off d <? 0 then inr ENegOffset
   else if Z.of_nat (length st) <=? d_off d then inl []
-  else
-    (* io.NewSectionReader(r, off, n) with n < 0: its test "off <= maxint64 - n" wraps
-       around, the limit becomes maxint64 and the section runs to the end of the file *)
-    let n := if d_size d <? 0 then Z.of_nat (length st) - d_off d
-             else Z.min (d_size d) (Z.of_nat (length st) - d_off d) in
-    inl (nread (Z.to_nat (d_off d)) (Z.to_nat n) st).
+  else inl (nread (Z.to_nat (d_off d))
+                  (Z.to_nat (Z.min (d_size d) (Z.of_nat (length st) - d_off d))) st).
